@@ -31,7 +31,10 @@ if TYPE_CHECKING:
 def _is_identity(action) -> bool:
     """Check if the given action is equivalent to an identity."""
     gate = action.gate if isinstance(action, ops.Operation) else action
-    if isinstance(gate, (ops.XPowGate, ops.CXPowGate, ops.CCXPowGate, ops.SwapPowGate)):
+    if isinstance(gate, ops.XPowGate):
+        # X of a d-level system has period d.
+        return gate.exponent % gate.dimension == 0
+    if isinstance(gate, (ops.CXPowGate, ops.CCXPowGate, ops.SwapPowGate)):
         return gate.exponent % 2 == 0
     return False
 
